@@ -5,7 +5,10 @@ import Tuc.Model.Bounds
 `Tuc.Model.Bounds` models the bounds code over the unbounded integers (`Int` indexes, `Nat`
 counts).  This file follows the Rust text of the same functions statement by statement with the
 Rust integer types made explicit (the numbers in the comments are the lines of `side.rs` /
-`userbounds.rs` at commit 9782769 of `/repo`):
+`userbounds.rs` at commit 9782769 of `/repo`, EXCEPT the body of `try_into_range`, which is the
+REPAIRED text — the arithmetic in `i64` instead of `parts_length as i32` — numbered from its
+unchanged first line 220 as `rustfmt` lays it out: 220-264, four lines more than before; the numbers
+quoted for the items after it are still those of commit 9782769):
 
 * `<i32 as FromStr>::from_str`  (core `from_ascii_radix`, radix 10)        → `parseI32Lit`
 * `Side::from_str`              (side.rs:15-23)                            → `SideL.fromStr`
@@ -14,15 +17,22 @@ Rust integer types made explicit (the numbers in the comments are the lines of `
 * `From<Range<usize>>`          (userbounds.rs:90-102)                     → `UserBoundsL.ofRange`
 * `impl PartialOrd for UserBounds` (userbounds.rs:110-117)                 → `UserBoundsL.partialCmp`
 * `UserBounds::matches`         (userbounds.rs:170-192)                    → `UserBoundsL.matches`
-* `UserBounds::try_into_range`  (userbounds.rs:220-260)                    → `UserBoundsL.tryIntoRange`
+* `UserBounds::try_into_range`  (userbounds.rs:220-264, repaired text)     → `UserBoundsL.tryIntoRange`
 * `UserBounds::unpack`          (userbounds.rs:264-281)                    → `UserBoundsL.unpack`
 * `UserBounds::complement`      (userbounds.rs:284-288)                    → `UserBoundsL.complement`
 * `complement_std_range`        (userbounds.rs:291-304)                    → `complementStdRangeLit`
 
 `Tuc.Props.BoundsLit` proves that each of them agrees with `Tuc.Model.Bounds` — for every argument
-where no width is involved, under `parts_length < 2³¹` (and "the left side is not the literal 0",
-which the parser guarantees) where `parts_length as i32` is — and shows by concrete values that
+where no width is involved; `try_into_range` for every `parts_length ≤ i64::MAX` (every length a
+Rust slice can have) and "the left side is not the literal 0" (which the parser guarantees: `-1 as
+usize`); `unpack` / `complement`, which still go through `i as i32 + 1` and
+`usize::try_into::<i32>().expect(..)`, under `num_fields < 2³¹` — and shows by concrete values that
 these hypotheses cannot be dropped.
+
+History: until the repair `try_into_range` began with `let parts_length = parts_length as i32;` and
+computed in `i32`; the transcription of that text (`usizeAsI32 partsLength`, `I32` arithmetic,
+`i32AsUsize`) and the witnesses of the defect it had (`tuc -b 1:3` on a 2 GiB input: "Out of
+bounds: 1") are in the commit history of this file and of `Tuc.Props.BoundsLit`.
 
 Conventions
 
@@ -33,12 +43,18 @@ Conventions
   the behaviour of the debug build and of the test harness, which are compiled with overflow checks
   (`attempt to add with overflow`).  (The release build wraps instead; it is not modelled here.)
   `checked_add` / `checked_sub` / `checked_mul` (used by the number parser of `core`) yield `None`.
+* **`i64`** is `I64`, in the same way (`[-2⁶³, 2⁶³ - 1]`); `+`, `-` and unary `-` on it are checked
+  (`I64.add`, `I64.sub`, `I64.neg`).  `Tuc.Props.BoundsLit` PROVES that none of them can overflow in
+  `try_into_range` (`tryIntoRange_no_panic`: sides are `i32` values, `parts_length ≤ i64::MAX`).
 * every cast is a named function that does what `as` does: `usizeAsI32` (`x as i32`: the low 32 bits,
-  read as two's complement), `i32AsUsize` (`x as usize`: sign extension to the 64 bits of the
-  target, so `-1 as usize = 2⁶⁴ - 1`), `u32AsI32`; `usize::try_into::<i32>()` is `usizeTryIntoI32`
-  (`None` above `i32::MAX`), its `.expect(..)` is checked (`Res.panic`).
+  read as two's complement), `i64AsUsize` (`x as usize`: the same 64 bits read as unsigned, so
+  `-1 as usize = 2⁶⁴ - 1`), `u32AsI32`; `i64::from(v)` for `v: i32`
+  is `i64FromI32` (lossless); `usize::try_into::<i32>()` is `usizeTryIntoI32` (`None` above
+  `i32::MAX`), its `.expect(..)` is checked (`Res.panic`); `usize::try_into::<i64>()` is
+  `usizeTryIntoI64` (`None` above `i64::MAX`), `.unwrap_or(d)` is `unwrapOr`.
 * **`usize`** is `Nat` (project convention: a slice of 2⁶⁴ bytes does not exist, so `usize`
-  arithmetic is unbounded; the only place where the width of `usize` shows is `i32AsUsize`).
+  arithmetic is unbounded; the only places where the width of `usize` shows are `i64AsUsize` and
+  `usizeTryIntoI64`).
   `s.len() - 1` is checked all the same (`usizeSub`).
 * `Result<T>` is `Res T`: `.ok`, `.fail` (= `Err`, every `bail!` and every `?`), `.panic`
   (overflow, `expect`, slicing out of range).  `a.bind f` is "`a?`, then `f`";
@@ -47,7 +63,7 @@ Conventions
   rather than nested `match`es: their equations are propositional lemmas, so that no proof step
   asks the kernel to evaluate a `match` on `I32.wrap ↑n` — see the note in `Tuc.Props.BoundsLit`.)
 * `&&` and `||` evaluate their right operand only when needed, as in Rust: an operand that can
-  overflow is sequenced accordingly (`v > parts_length || v < -parts_length`, l.226/240: the
+  overflow is sequenced accordingly (`v > parts_length || v < -parts_length`, l.229/244: the
   negation is computed only if the first test is false).
 * a `match` with guards is an `if` chain in the order of the arms.
 * `&str` is `List Char` (argv text, as everywhere in the model) and offsets into it count
@@ -166,6 +182,49 @@ def cmp (a b : I32) : Ordering := compare a.val b.val
 
 end I32
 
+/-! ## `i64` -/
+
+/-- `i64`: an integer together with the proof that it fits -/
+structure I64 where
+  val : Int
+  lo : -9223372036854775808 ≤ val
+  hi : val ≤ 9223372036854775807
+  deriving DecidableEq
+
+instance : Repr I64 := ⟨fun x n => reprPrec x.val n⟩
+
+/-- an `i64` literal -/
+def i64 (v : Int) (lo : -9223372036854775808 ≤ v := by decide) (hi : v ≤ 9223372036854775807 := by decide) :
+    I64 :=
+  ⟨v, lo, hi⟩
+
+namespace I64
+
+/-- `i64::MIN` -/
+def MIN : I64 := i64 (-9223372036854775808)
+/-- `i64::MAX` -/
+def MAX : I64 := i64 9223372036854775807
+
+instance : Inhabited I64 := ⟨i64 0⟩
+
+/-- the result of an arithmetic operation with the overflow check of the debug build -/
+def checked (v : Int) : Res I64 :=
+  if h : -9223372036854775808 ≤ v ∧ v ≤ 9223372036854775807 then .ok ⟨v, h.1, h.2⟩ else .panic
+
+/-- `a + b` -/
+def add (a b : I64) : Res I64 := checked (a.val + b.val)
+/-- `a - b` -/
+def sub (a b : I64) : Res I64 := checked (a.val - b.val)
+/-- `-a` -/
+def neg (a : I64) : Res I64 := checked (-a.val)
+
+instance : LT I64 := ⟨fun a b => a.val < b.val⟩
+instance : LE I64 := ⟨fun a b => a.val ≤ b.val⟩
+instance (a b : I64) : Decidable (a < b) := inferInstanceAs (Decidable (a.val < b.val))
+instance (a b : I64) : Decidable (a ≤ b) := inferInstanceAs (Decidable (a.val ≤ b.val))
+
+end I64
+
 /-! ## casts -/
 
 /-- `x as i32` for `x: usize`: truncation to 32 bits, two's complement -/
@@ -174,12 +233,26 @@ def usizeAsI32 (x : Nat) : I32 := I32.wrap x
 /-- `x as i32` for `x: u32` -/
 def u32AsI32 (x : UInt32) : I32 := I32.wrap x.toNat
 
-/-- `x as usize` for `x: i32` on a 64-bit target: sign extension -/
-def i32AsUsize (x : I32) : Nat := (x.val % 18446744073709551616).toNat
-
 /-- `usize::try_into::<i32>()`: `None` (= `Err(TryFromIntError)`) above `i32::MAX` -/
 def usizeTryIntoI32 (x : Nat) : Option I32 :=
   if h : (x : Int) ≤ 2147483647 then Option.some ⟨x, by omega, h⟩ else Option.none
+
+/-- `i64::from(x)` for `x: i32`: every `i32` is an `i64` -/
+def i64FromI32 (x : I32) : I64 :=
+  ⟨x.val, by have := x.lo; omega, by have := x.hi; omega⟩
+
+/-- `usize::try_into::<i64>()`: `None` (= `Err(TryFromIntError)`) above `i64::MAX` -/
+def usizeTryIntoI64 (x : Nat) : Option I64 :=
+  if h : (x : Int) ≤ 9223372036854775807 then Option.some ⟨x, by omega, h⟩ else Option.none
+
+/-- `r.unwrap_or(d)` (on the `Result` of `try_into`, read as an `Option`) -/
+def unwrapOr {α : Type} (o : Option α) (d : α) : α :=
+  match o with
+  | Option.some a => a
+  | Option.none => d
+
+/-- `x as usize` for `x: i64` on a 64-bit target: the same 64 bits read as unsigned -/
+def i64AsUsize (x : I64) : Nat := (x.val % 18446744073709551616).toNat
 
 /-- `x - y` on `usize` with the overflow check of the debug build -/
 def usizeSub (x y : Nat) : Res Nat := if y ≤ x then .ok (x - y) else .panic
@@ -418,45 +491,50 @@ def UserBoundsL.matches (self : UserBoundsL) (idx : I32) : Res Bool :=
         if left ≤ idx then .ok true                                    -- 189
         else .ok false                                                 -- 190
 
-/-- l.226 / l.240: `v > parts_length || v < -parts_length` -/
-def outOfBounds (v partsLength : I32) : Res Bool :=
+/-- l.229 / l.244: `v > parts_length || v < -parts_length` -/
+def outOfBounds (v partsLength : I64) : Res Bool :=
   if v > partsLength then .ok true                                     -- `||`: the rest is not evaluated
-  else (I32.neg partsLength).bind fun m => .ok (decide (v < m))
+  else (I64.neg partsLength).bind fun m => .ok (decide (v < m))
 
-/-- l.223-235: `let start: i32 = match self.l { … }` -/
-def rangeStartLit (l : SideL) (partsLength : I32) : Res I32 :=
-  match l with                                                         -- 223
-  | .cont => .ok (i32 0)                                               -- 224
-  | .some v =>                                                         -- 225
-    (outOfBounds v partsLength).bind fun oob =>                        -- 226
-    if oob then .fail                                                  -- 227 bail!("Out of bounds: {}", v)
-    else if v < i32 0 then                                             -- 229
-      I32.add partsLength v                                            -- 230 parts_length + v
+/-- l.225-238: `let start: i64 = match self.l { … }` -/
+def rangeStartLit (l : SideL) (partsLength : I64) : Res I64 :=
+  match l with                                                         -- 225
+  | .cont => .ok (i64 0)                                               -- 226
+  | .some v =>                                                         -- 227
+    let v : I64 := i64FromI32 v                                        -- 228 let v = i64::from(v);
+    (outOfBounds v partsLength).bind fun oob =>                        -- 229
+    if oob then .fail                                                  -- 230 bail!("Out of bounds: {}", v)
+    else if v < i64 0 then                                             -- 232
+      I64.add partsLength v                                            -- 233 parts_length + v
     else
-      I32.sub v (i32 1)                                                -- 232 v - 1
+      I64.sub v (i64 1)                                                -- 235 v - 1
 
-/-- l.237-249: `let end: i32 = match self.r { … }` -/
-def rangeEndLit (r : SideL) (partsLength : I32) : Res I32 :=
-  match r with                                                         -- 237
-  | .cont => .ok partsLength                                           -- 238
-  | .some v =>                                                         -- 239
-    (outOfBounds v partsLength).bind fun oob =>                        -- 240
-    if oob then .fail                                                  -- 241 bail!("Out of bounds: {}", v)
-    else if v < i32 0 then                                             -- 243
-      (I32.add partsLength v).bind fun t => I32.add t (i32 1)          -- 244 parts_length + v + 1
+/-- l.240-253: `let end: i64 = match self.r { … }` -/
+def rangeEndLit (r : SideL) (partsLength : I64) : Res I64 :=
+  match r with                                                         -- 240
+  | .cont => .ok partsLength                                           -- 241
+  | .some v =>                                                         -- 242
+    let v : I64 := i64FromI32 v                                        -- 243 let v = i64::from(v);
+    (outOfBounds v partsLength).bind fun oob =>                        -- 244
+    if oob then .fail                                                  -- 245 bail!("Out of bounds: {}", v)
+    else if v < i64 0 then                                             -- 247
+      (I64.add partsLength v).bind fun t => I64.add t (i64 1)          -- 248 parts_length + v + 1
     else
-      .ok v                                                            -- 246
+      .ok v                                                            -- 250
 
-/-- `UserBounds::try_into_range` (userbounds.rs:220-260) -/
+/-- `UserBounds::try_into_range` (userbounds.rs:220-264, the repaired text) -/
 def UserBoundsL.tryIntoRange (self : UserBoundsL) (partsLength : Nat) : Res (Nat × Nat) :=
-  let partsLength : I32 := usizeAsI32 partsLength                      -- 221 parts_length as i32
-  (rangeStartLit self.l partsLength).bind fun start =>                 -- 223-235
-  (rangeEndLit self.r partsLength).bind fun end_ =>                    -- 237-249
-  if end_ ≤ start then                                                 -- 251
+  -- The number of parts is a byte count in --bytes mode: an input of 2 GiB
+  -- does not fit an i32 (indexes do, lengths do not)
+  let partsLength : I64 :=                                             -- 223 parts_length.try_into()
+    unwrapOr (usizeTryIntoI64 partsLength) I64.MAX                     --       .unwrap_or(i64::MAX)
+  (rangeStartLit self.l partsLength).bind fun start =>                 -- 225-238
+  (rangeEndLit self.r partsLength).bind fun end_ =>                    -- 240-253
+  if end_ ≤ start then                                                 -- 255
     -- `end` must always be 1 or more greater than start
-    .fail                                                              -- 253 bail!
+    .fail                                                              -- 257 bail!
   else
-    .ok (i32AsUsize start, i32AsUsize end_)                            -- 256-259 start as usize, end as usize
+    .ok (i64AsUsize start, i64AsUsize end_)                            -- 260-263 start as usize, end as usize
 
 /-- the closure of l.267-270 -/
 def unpackSlot (i : Nat) : Res UserBoundsL :=
